@@ -244,6 +244,10 @@ struct Run<'a> {
     answered: bool,
     /// thorough tier: every entry point on every variant
     full: bool,
+    /// length used for the query ranges (inp.len, or the BitVector's own len() after a history)
+    n: usize,
+    /// the BitVector a mutation history produced (route "hist")
+    hist: Option<BitVector>,
 }
 
 struct Stop;
@@ -305,9 +309,9 @@ impl<'a> Run<'a> {
     /// positions p for rank queries: every p in 0..=len, or the sample for large vectors
     fn positions(&self) -> (bool, Vec<usize>) {
         if !self.inp.big {
-            return (true, (0..=self.inp.len).collect());
+            return (true, (0..=self.n).collect());
         }
-        (false, sample(self.inp.len, self.inp.len, 2000))
+        (false, sample(self.n, self.n, 2000))
     }
     /// k for select queries: every k in 0..=len (k >= count must be refused), or the sample
     fn ks(&self) -> (bool, Vec<usize>) {
@@ -426,7 +430,7 @@ impl<'a> Run<'a> {
     }
     /// the two bulk calls: all k below `count` (the subject's own count_ones) and 0..=count
     fn select_bulk_pair(&mut self, api: &str, count: usize, f: impl Fn(&[usize]) -> Option<Vec<usize>>) -> R {
-        let ks: Vec<usize> = if self.inp.big { sample(count.saturating_sub(1), self.inp.len, 2000) } else { (0..count).collect() };
+        let ks: Vec<usize> = if self.inp.big { sample(count.saturating_sub(1), self.n, 2000) } else { (0..count).collect() };
         let ks: Vec<usize> = ks.into_iter().filter(|&k| k < count).collect();
         self.select_batch("select1", api, ks.clone(), &f)?;
         let mut ks2 = ks;
@@ -434,7 +438,7 @@ impl<'a> Run<'a> {
         self.select_batch("select1", api, ks2, &f)
     }
     fn get(&mut self, api: &str, f: impl Fn(usize) -> Option<bool>) -> R {
-        let n = self.inp.len;
+        let n = self.n;
         // every i < len; the sample for large vectors
         let (all, idx): (bool, Vec<usize>) =
             if self.inp.big { (false, sample(n - 1, n, 2000)) } else { (true, (0..n).collect()) };
@@ -470,6 +474,50 @@ impl<'a> Run<'a> {
             }
             Err(m) => Err(self.panic("counts", m)),
         }
+    }
+    /// a twin of len / count_ones / count_zeros / is_empty
+    fn cnt(&mut self, what: &str, api: &str, f: impl Fn() -> usize) -> R {
+        self.at.set(0);
+        match guard(f) {
+            Ok(x) => {
+                self.ev(json!({"op":"cnt","what":what,"api":api,"r":clip(x)}), 1);
+                Ok(())
+            }
+            Err(m) => Err(self.panic(api, m)),
+        }
+    }
+    /// ones inside bit ranges (start, len) of single words
+    fn wrange(&mut self, api: &str, f: impl Fn(u64, &[(u32, u32)]) -> Vec<u32>) -> R {
+        let mut ranges: Vec<(u32, u32)> = vec![];
+        for s in [0u32, 1, 31, 32, 63, 64] {
+            for l in [0u32, 1, 32, 33, 64] {
+                ranges.push((s, l));
+            }
+        }
+        for w in self.word_sample() {
+            let word = self.inp.words[w];
+            match guard(|| f(word, &ranges)) {
+                Ok(r) => {
+                    let ss: Vec<u32> = ranges.iter().map(|x| x.0).collect();
+                    let ls: Vec<u32> = ranges.iter().map(|x| x.1).collect();
+                    let n = r.len();
+                    self.ev(json!({"op":"wrange","api":api,"w":w,"s":ss,"l":ls,"r":r}), n)
+                }
+                Err(m) => return Err(self.panic(api, m)),
+            }
+        }
+        Ok(())
+    }
+    /// trailing / leading zero counts of single words
+    fn wedge(&mut self, api: &str, f: impl Fn(u64) -> (u32, u32)) -> R {
+        for w in self.word_sample() {
+            let word = self.inp.words[w];
+            match guard(|| f(word)) {
+                Ok((tz, lz)) => self.ev(json!({"op":"wedge","api":api,"w":w,"tz":tz,"lz":lz}), 2),
+                Err(m) => return Err(self.panic(api, m)),
+            }
+        }
+        Ok(())
     }
     fn build_refused(&mut self) -> R {
         self.ev(json!({"op":"build","ok":false}), 0);
@@ -511,7 +559,7 @@ impl<'a> Run<'a> {
     /// f(word, k) with k 0-based (adapters of 1-based APIs pass k+1)
     fn wselect(&mut self, which: &str, api: &str, f: impl Fn(u64, usize) -> Option<usize>) -> R {
         for w in self.word_sample() {
-            if which == "select0" && 64 * w + 64 > self.inp.len {
+            if which == "select0" && 64 * w + 64 > self.n {
                 continue;
             }
             let word = self.inp.words[w];
@@ -564,11 +612,411 @@ fn sample(max: usize, len: usize, nrand: usize) -> Vec<usize> {
     v
 }
 
+// ---------------------------------------------------------------- bit-vector mutation histories
+
+/// bits as 16-bit words (the format of the reset event)
+fn pack16(bits: &[bool]) -> Value {
+    let mut w = vec![0u32; (bits.len() + 15) / 16];
+    for (i, &b) in bits.iter().enumerate() {
+        if b {
+            w[i / 16] |= 1 << (i % 16);
+        }
+    }
+    json!(w)
+}
+
+fn rand_bits(rng: &mut Rng, n: usize, num: u64, den: u64) -> Vec<bool> {
+    (0..n).map(|_| rng.chance(num, den)).collect()
+}
+
+const HIST_LENS: &[usize] = &[1, 63, 64, 65, 100, 127, 128, 129, 200, 255, 256, 257, 300, 511, 512, 513];
+const HIST_POPS: &[usize] = &[1, 2, 3, 63, 64, 65];
+
+/// (profile, number of variants in the quick tier)
+const HIST_PROFILES: &[(&str, usize)] = &[
+    ("poptail", 16), ("popgrow", 24), ("shrink", 8), ("clearre", 4), ("raw", 6), ("insert", 4), ("range", 8),
+    ("bitwise", 6), ("fast", 6), ("mixed", 16),
+];
+
+fn histories(a: &Args) -> Vec<(String, usize)> {
+    let mut v = vec![];
+    let mult = if a.thorough() { 4 } else { 1 };
+    for &(p, k) in HIST_PROFILES {
+        for i in 0..k * mult {
+            v.push((p.to_string(), i));
+        }
+    }
+    v
+}
+
+/// One mutator call on the real BitVector, logged as a `mut` event together with len() and
+/// count_ones() observed right after it.  The harness does not know what the vector contains.
+struct Hist<'r, 'a> {
+    r: &'r mut Run<'a>,
+    bv: BitVector,
+    /// full probe (counts, get, rank1, rank0 for every position) after every step
+    probe: bool,
+}
+
+impl<'r, 'a> Hist<'r, 'a> {
+    fn len(&self) -> usize {
+        self.bv.len()
+    }
+    fn done(&mut self, api: &str, res: Result<Value, String>) -> R {
+        let mut e = match res {
+            Ok(e) => e,
+            Err(m) => return Err(self.r.panic(api, m)),
+        };
+        let bv = &self.bv;
+        let (len, ones) = match guard(|| (bv.len(), bv.count_ones())) {
+            Ok(x) => x,
+            Err(m) => return Err(self.r.panic("count_ones", m)),
+        };
+        let o = e.as_object_mut().unwrap();
+        o.insert("op".into(), json!("mut"));
+        o.insert("api".into(), json!(api));
+        o.insert("len".into(), json!(clip(len)));
+        o.insert("ones".into(), json!(clip(ones)));
+        self.r.ev(e, 2);
+        self.r.n = len;
+        if self.probe {
+            let bv = &self.bv;
+            let r = &mut *self.r;
+            r.counts(|| (bv.len(), bv.count_ones(), bv.count_zeros()))?;
+            r.get("get", |i| bv.get(i))?;
+            r.rank("rank1", "rank1", |p| bv.rank1(p))?;
+            r.rank("rank0", "rank0", |p| bv.rank0(p))?;
+        }
+        Ok(())
+    }
+    fn new_with(&mut self, api: &str, f: impl FnOnce() -> Result<(BitVector, Value), String>) -> R {
+        let res = guard(f);
+        let res = match res {
+            Ok(Ok((bv, e))) => {
+                self.bv = bv;
+                Ok(e)
+            }
+            Ok(Err(m)) | Err(m) => Err(m),
+        };
+        self.done(api, res)
+    }
+    fn create(&mut self, api: &str, cap: usize) -> R {
+        self.new_with(api, || {
+            let bv = if api == "with_capacity" { BitVector::with_capacity(cap).map_err(|e| e.to_string())? } else { BitVector::new() };
+            Ok((bv, json!({"m":"new"})))
+        })
+    }
+    fn with_size(&mut self, n: usize, x: bool) -> R {
+        self.new_with("with_size", || Ok((BitVector::with_size(n, x).map_err(|e| e.to_string())?, json!({"m":"with_size","n":n,"x":x as u8}))))
+    }
+    /// from_raw_bits with garbage above n and a surplus word
+    fn from_raw(&mut self, bits: &[bool]) -> R {
+        let n = bits.len();
+        let mut w = vec![0u64; (n + 63) / 64];
+        for (i, &b) in bits.iter().enumerate() {
+            if b {
+                w[i / 64] |= 1u64 << (i % 64);
+            }
+        }
+        if n % 64 != 0 {
+            let last = w.len() - 1;
+            w[last] |= !0u64 << (n % 64);
+        }
+        w.push(!0u64);
+        let e = json!({"m":"from_raw","n":n,"w16":pack16(bits)});
+        self.new_with("from_raw_bits", || Ok((BitVector::from_raw_bits(w, n).map_err(|e| e.to_string())?, e)))
+    }
+    fn push(&mut self, bits: &[bool]) -> R {
+        let bv = &mut self.bv;
+        let res = guard(|| {
+            for &b in bits {
+                bv.push(b).expect("push");
+            }
+        });
+        let e = json!({"m":"push","k":bits.len(),"w16":pack16(bits)});
+        self.done("push", res.map(|_| e))
+    }
+    fn pop(&mut self, k: usize) -> R {
+        let bv = &mut self.bv;
+        let res = guard(|| {
+            (0..k)
+                .map(|_| match bv.pop() {
+                    Some(true) => 1,
+                    Some(false) => 0,
+                    None => -1,
+                })
+                .collect::<Vec<i64>>()
+        });
+        self.done("pop", res.map(|r| json!({"m":"pop","k":k,"r":r})))
+    }
+    /// set / set_unchecked (only in range) / get_mut().set
+    fn set(&mut self, api: &str, i: usize, x: bool) -> R {
+        let bv = &mut self.bv;
+        let res = guard(|| match api {
+            "set_unchecked" => {
+                unsafe { bv.set_unchecked(i, x) };
+                true
+            }
+            "get_mut" => match bv.get_mut(i) {
+                Some(mut b) => b.set(x).is_ok(),
+                None => false,
+            },
+            _ => bv.set(i, x).is_ok(),
+        });
+        self.done(api, res.map(|ok| json!({"m":"set","i":i,"x":x as u8,"ok":ok})))
+    }
+    fn insert(&mut self, i: usize, x: bool) -> R {
+        let bv = &mut self.bv;
+        let res = guard(|| bv.insert(i, x).is_ok());
+        self.done("insert", res.map(|ok| json!({"m":"insert","i":i,"x":x as u8,"ok":ok})))
+    }
+    fn ensure(&mut self, api: &str, i: usize) -> R {
+        let bv = &mut self.bv;
+        let res = guard(|| if api == "fast_ensure_set1" { bv.fast_ensure_set1(i).is_ok() } else { bv.ensure_set1(i).is_ok() });
+        self.done(api, res.map(|ok| json!({"m":"ensure_set1","i":i,"ok":ok})))
+    }
+    fn resize(&mut self, n: usize, x: bool) -> R {
+        let bv = &mut self.bv;
+        let res = guard(|| bv.resize(n, x).is_ok());
+        self.done("resize", res.map(|ok| json!({"m":"resize","n":n,"x":x as u8,"ok":ok})))
+    }
+    fn clear(&mut self) -> R {
+        let bv = &mut self.bv;
+        let res = guard(|| bv.clear());
+        self.done("clear", res.map(|_| json!({"m":"clear"})))
+    }
+    fn set_range(&mut self, s: usize, e: usize, x: bool) -> R {
+        let bv = &mut self.bv;
+        let res = guard(|| bv.set_range_simd(s, e, x).is_ok());
+        self.done("set_range_simd", res.map(|ok| json!({"m":"set_range","s":s,"e":e,"x":x as u8,"ok":ok})))
+    }
+    fn bitwise(&mut self, f: &str, other: &[bool], s: usize, e: usize) -> R {
+        // C04-KF9 (until work/patches/C04-9.diff is applied): the whole-block OR/XOR also writes the storage bits
+        // ABOVE len when `other` is longer than the vector - an effect the contract cannot describe (it shows up
+        // later: fast_ensure_set1 resurrects them, SE256/SE512/Simple count them).  That input region is excluded;
+        // with the patch applied the two lines below can go.
+        let cut = f != "and" && other.len() > self.bv.len();
+        let other = if cut { &other[..self.bv.len()] } else { other };
+        let mut o = BitVector::new();
+        for &b in other {
+            o.push(b).expect("push");
+        }
+        let op = match f {
+            "and" => zipora::succinct::BitwiseOp::And,
+            "or" => zipora::succinct::BitwiseOp::Or,
+            _ => zipora::succinct::BitwiseOp::Xor,
+        };
+        let bv = &mut self.bv;
+        // the content is read back with get() right after the call (a projection; get itself is judged by the probes)
+        let res = guard(|| {
+            let ok = bv.bulk_bitwise_op_simd(&o, op, s, e).is_ok();
+            let after: Vec<bool> = (0..bv.len()).map(|i| bv.get(i) == Some(true)).collect();
+            (ok, after)
+        });
+        self.done(
+            "bulk_bitwise_op_simd",
+            res.map(|(ok, after)| {
+                json!({"m":"bitwise","f":f,"s":s,"e":e,"olen":other.len(),"ow16":pack16(other),"ok":ok,"after16":pack16(&after)})
+            }),
+        )
+    }
+    /// calls that must not change the sequence: reserve, continuing with a clone, == with the clone
+    fn noop(&mut self, api: &str, arg: usize) -> R {
+        let bv = &mut self.bv;
+        let res = guard(|| match api {
+            "reserve" => {
+                let _ = bv.reserve(arg);
+                let _ = bv.capacity();
+                None
+            }
+            _ => Some(bv.clone()),
+        });
+        let res = match res {
+            Ok(Some(c)) => {
+                if api == "clone_eq" {
+                    // PartialEq against its own clone
+                    let same = c == self.bv && self.bv == c;
+                    self.done("eq", Ok(json!({"m":"noop"})))?;
+                    self.r.ev(json!({"op":"cnt","what":"len","api":"eq(clone)->len","r": if same { clip(self.bv.len()) } else { -2 }}), 1);
+                    return Ok(());
+                }
+                self.bv = c;
+                Ok(json!({"m":"noop"}))
+            }
+            Ok(None) => Ok(json!({"m":"noop"})),
+            Err(m) => Err(m),
+        };
+        self.done(api, res)
+    }
+}
+
+/// run the history (profile, variant v) on a real BitVector; every call is logged
+fn history(r: &mut Run, profile: &str, v: usize, seed: u64, probe: bool) -> Result<BitVector, Stop> {
+    let mut rng = Rng::new(seed).derive(&format!("hist/{profile}/{v}"));
+    let l = HIST_LENS[v % HIST_LENS.len()];
+    let k = HIST_POPS[(v / HIST_LENS.len() + v) % HIST_POPS.len()].min(l);
+    let mut h = Hist { r, bv: BitVector::new(), probe };
+    match profile {
+        // ones near the end are popped and nothing is pushed afterwards
+        "poptail" => {
+            h.create("new", 0)?;
+            let mut bits = rand_bits(&mut rng, l, 1, 3);
+            for i in l.saturating_sub(70)..l {
+                bits[i] = rng.chance(9, 10);
+            }
+            h.push(&bits)?;
+            h.pop(k)?;
+        }
+        // ... and then the vector grows again without a push
+        "popgrow" => {
+            h.create("new", 0)?;
+            let mut bits = rand_bits(&mut rng, l, 1, 2);
+            for i in l.saturating_sub(70)..l {
+                bits[i] = rng.chance(9, 10);
+            }
+            h.push(&bits)?;
+            h.pop(k)?;
+            let d = [0usize, 1, 7, 63, 64, 130][v % 6];
+            let n = h.len();
+            match (v / 6) % 4 {
+                0 => h.ensure("ensure_set1", n + d)?,
+                1 => h.ensure("fast_ensure_set1", n + d)?,
+                2 => h.resize(n + d + 1, false)?,
+                _ => h.resize(n + d + 1, true)?,
+            }
+            h.pop(1)?;
+            let n = h.len();
+            h.ensure(if v % 2 == 0 { "fast_ensure_set1" } else { "ensure_set1" }, n + 2)?;
+        }
+        // a longer vector of ones cut down
+        "shrink" => {
+            h.with_size(l + [1usize, 64, 200, 300][v % 4], true)?;
+            h.resize(l, v % 2 == 0)?;
+            for j in 0..6 {
+                let i = rng.below(l as u64 + 1) as usize;
+                h.set(["set", "set_unchecked", "get_mut"][j % 3], if j % 3 == 1 { i.min(l - 1) } else { i }, rng.chance(1, 2))?;
+            }
+            h.resize(l / 2, false)?;
+            h.noop("clone", 0)?;
+        }
+        "clearre" => {
+            h.create("with_capacity", l)?;
+            h.push(&vec![true; l])?;
+            h.clear()?;
+            h.noop("reserve", 100)?;
+            let bits = rand_bits(&mut rng, l / 3, 1, 2);
+            h.push(&bits)?;
+            h.noop("clone_eq", 0)?;
+        }
+        "raw" => {
+            let bits = rand_bits(&mut rng, l, 2, 3);
+            h.from_raw(&bits)?;
+            h.pop(k)?;
+            if v % 2 == 0 {
+                let n = h.len();
+                h.ensure("ensure_set1", n + 5)?;
+            }
+        }
+        "insert" => {
+            h.create("new", 0)?;
+            let bits = rand_bits(&mut rng, l, 1, 2);
+            h.push(&bits)?;
+            h.insert(0, true)?;
+            let n = h.len();
+            h.insert(n / 2, false)?;
+            let n = h.len();
+            h.insert(n, true)?;
+            let n = h.len();
+            h.insert(n + 1, true)?;
+            h.insert(64.min(h.len()), true)?;
+        }
+        "range" => {
+            let x = v % 2 == 0;
+            h.with_size(l, x)?;
+            let n = h.len();
+            let cuts = [(1usize, n.saturating_sub(1)), (63, 65), (64, 128), (5, 5), (n, n), (0, n + 1), (n / 3, 2 * n / 3), (0, n)];
+            for j in 0..4 {
+                let (s, e) = cuts[(v + 3 * j) % cuts.len()];
+                h.set_range(s, e, if j % 2 == 0 { !x } else { x })?;
+            }
+        }
+        "bitwise" => {
+            h.create("new", 0)?;
+            let bits = rand_bits(&mut rng, l, 1, 2);
+            h.push(&bits)?;
+            let olen = [l, l + 70, l / 2][v % 3];
+            let other = rand_bits(&mut rng, olen, 1, 2);
+            let f = ["and", "or", "xor"][v % 3];
+            h.bitwise(f, &other, 0, l.min(olen))?;
+            h.bitwise(["xor", "and", "or"][v % 3], &other, 1.min(l), (l.min(olen)).saturating_sub(1).max(1.min(l)))?;
+            h.bitwise(f, &other, 0, l)?;
+        }
+        // the documented use of fast_ensure_set1: increasing members of an integer set
+        "fast" => {
+            h.create("with_capacity", [0usize, 64, 200][v % 3])?;
+            let mut i = 0usize;
+            for _ in 0..12 {
+                i += [1usize, 2, 5, 63, 64, 70][rng.below(6) as usize];
+                h.ensure("fast_ensure_set1", i)?;
+            }
+            h.pop(2)?;
+            let n = h.len();
+            h.ensure("fast_ensure_set1", n + [0usize, 3, 64][v % 3])?;
+            h.ensure("ensure_set1", h.len() / 2)?;
+            h.pop(1)?;
+            let n = h.len();
+            h.ensure("ensure_set1", n + 1)?;
+        }
+        // seeded random histories over all mutators
+        _ => {
+            h.create("new", 0)?;
+            let bits = rand_bits(&mut rng, l, 1, 2);
+            h.push(&bits)?;
+            for _ in 0..(if probe { 20 } else { 30 }) {
+                let n = h.len();
+                let at = |rng: &mut Rng| rng.below(n as u64 + 2) as usize;
+                match rng.below(16) {
+                    0 | 1 => {
+                        let cnt = [1usize, 2, 65][rng.below(3) as usize];
+                        let b = rand_bits(&mut rng, cnt, 2, 3);
+                        h.push(&b)?
+                    }
+                    2 | 3 | 4 => h.pop([1usize, 1, 2, 64][rng.below(4) as usize])?,
+                    5 => h.set("set", at(&mut rng), rng.chance(1, 2))?,
+                    6 => {
+                        if n > 0 {
+                            h.set("set_unchecked", rng.below(n as u64) as usize, rng.chance(1, 2))?
+                        }
+                    }
+                    7 => h.set("get_mut", at(&mut rng), rng.chance(1, 2))?,
+                    8 => h.insert(at(&mut rng), rng.chance(1, 2))?,
+                    9 => h.ensure("ensure_set1", n + rng.below(70) as usize)?,
+                    10 => h.ensure("fast_ensure_set1", n + rng.below(70) as usize)?,
+                    11 => h.ensure(if rng.chance(1, 2) { "ensure_set1" } else { "fast_ensure_set1" }, at(&mut rng))?,
+                    12 => h.resize((n + 66).saturating_sub(rng.below(130) as usize), rng.chance(1, 2))?,
+                    13 => {
+                        let (a, b) = (at(&mut rng), at(&mut rng));
+                        h.set_range(a.min(b), a.max(b), rng.chance(1, 2))?
+                    }
+                    14 => {
+                        let other = rand_bits(&mut rng, n + 3, 1, 2);
+                        let (a, b) = (at(&mut rng), at(&mut rng));
+                        h.bitwise(["and", "or", "xor"][rng.below(3) as usize], &other, a.min(b), a.max(b))?
+                    }
+                    _ => h.noop(["reserve", "clone", "clone_eq"][rng.below(3) as usize], 77)?,
+                }
+            }
+        }
+    }
+    Ok(h.bv)
+}
+
 // ---------------------------------------------------------------- drivers per kind of subject
 
 /// every RankSelectOps method, position by position
 fn ops_basic<T: RankSelectOps + ?Sized>(r: &mut Run, s: &T) -> R {
     r.counts(|| (s.len(), s.count_ones(), s.count_zeros()))?;
+    r.cnt("empty", "is_empty", || s.is_empty() as usize)?;
     r.get("get", |i| s.get(i))?;
     r.rank("rank1", "rank1", |p| s.rank1(p))?;
     r.rank("rank0", "rank0", |p| s.rank0(p))?;
@@ -622,6 +1070,10 @@ fn subjects() -> Vec<String> {
         "adaptive:default", "adaptive:nosel_space", "adaptive:seq_noadapt", "adaptive_md:dual",
         "multidim:d0of2", "multidim:d1of2", "multidim:d4of5",
         "simd:words", "bmi2a:words", "bmi2c:words",
+        // built from a BitVector with a logged MUTATION HISTORY (push/pop/set/insert/ensure_set1/resize/clear/...)
+        "bv:steps@hist", "il256:default@hist", "il256:nosel@hist", "se256:sel11@hist", "se256:sel00@hist", "se512:sel11@hist",
+        "simple:new@hist", "fewone:from_bitvector@hist", "fewzero:from_bitvector@hist", "mixed:dim0_short@hist",
+        "mixed:dim1_long@hist", "adaptive:default@hist", "multidim:d0of2@hist", "multidim:d4of5@hist",
     ] {
         v.push(s.to_string());
     }
@@ -648,32 +1100,47 @@ fn applicable(fam: &str, inp: &Input) -> bool {
 
 fn run_subject(r: &mut Run, fam: &str, variant: &str, route: &str, seed: u64) -> R {
     let inp = r.inp;
-    let n = inp.len;
+    let n = r.n;
+    let base: Option<BitVector> = r.hist.clone();
+    // the BitVector the subject is built from: generated input through a construction route, or the
+    // product of the logged mutation history (a clone keeps the storage blocks exactly as they are)
+    let mkbv = |route: &str| -> BitVector {
+        match &base {
+            Some(b) if route == "hist" => b.clone(),
+            _ => make_bv(inp, route),
+        }
+    };
     match fam {
         "bv" => {
-            let bv = make_bv(inp, route);
+            let bv = mkbv(route);
             r.counts(|| (bv.len(), bv.count_ones(), bv.count_zeros()))?;
             r.get("get", |i| bv.get(i))?;
             r.rank("rank1", "rank1", |p| bv.rank1(p))?;
             r.rank("rank0", "rank0", |p| bv.rank0(p))?;
-            r.rank_bulk("rank1", "rank1_bulk_simd", |ps| bv.rank1_bulk_simd(ps))
+            r.rank_bulk("rank1", "rank1_bulk_simd", |ps| bv.rank1_bulk_simd(ps))?;
+            r.cnt("empty", "is_empty", || bv.is_empty() as usize)?;
+            // i < len() holds for every index asked
+            let len = bv.len();
+            r.get("get_unchecked", |i| if i < len { Some(unsafe { bv.get_unchecked(i) }) } else { None })?;
+            let c = bv.clone();
+            r.cnt("len", "eq(clone)->len", || if c == bv { bv.len() } else { MALFORMED })
         }
         "il256" => {
             let s = match variant {
-                "default" => RankSelectInterleaved256::new(make_bv(inp, route)),
-                "nosel" => RankSelectInterleaved256::with_options(make_bv(inp, route), false, 512),
-                "sel64" => RankSelectInterleaved256::with_options(make_bv(inp, route), true, 64),
-                "sel1" => RankSelectInterleaved256::with_options(make_bv(inp, route), true, 1),
+                "default" => RankSelectInterleaved256::new(mkbv(route)),
+                "nosel" => RankSelectInterleaved256::with_options(mkbv(route), false, 512),
+                "sel64" => RankSelectInterleaved256::with_options(mkbv(route), true, 64),
+                "sel1" => RankSelectInterleaved256::with_options(mkbv(route), true, 1),
                 "from_iter" => <RankSelectInterleaved256 as RankSelectBuilder<_>>::from_iter((0..n).map(|i| inp.bit(i))),
                 "from_bytes" => {
                     let bytes: Vec<u8> = (0..(n + 7) / 8).map(|j| (inp.words[j / 8] >> (8 * (j % 8))) as u8).collect();
                     <RankSelectInterleaved256 as RankSelectBuilder<_>>::from_bytes(&bytes, n)
                 }
-                "from_bit_vector" => <RankSelectInterleaved256 as RankSelectBuilder<_>>::from_bit_vector(make_bv(inp, route)),
-                "opt_default" => <RankSelectInterleaved256 as RankSelectBuilder<_>>::with_optimizations(make_bv(inp, route), BuilderOptions::default()),
+                "from_bit_vector" => <RankSelectInterleaved256 as RankSelectBuilder<_>>::from_bit_vector(mkbv(route)),
+                "opt_default" => <RankSelectInterleaved256 as RankSelectBuilder<_>>::with_optimizations(mkbv(route), BuilderOptions::default()),
                 _ => {
                     let o = BuilderOptions { optimize_select: false, prefer_space: true, enable_simd: false, ..BuilderOptions::default() };
-                    <RankSelectInterleaved256 as RankSelectBuilder<_>>::with_optimizations(make_bv(inp, route), o)
+                    <RankSelectInterleaved256 as RankSelectBuilder<_>>::with_optimizations(mkbv(route), o)
                 }
             };
             let s = built(r, s)?;
@@ -686,50 +1153,61 @@ fn run_subject(r: &mut Run, fam: &str, variant: &str, route: &str, seed: u64) ->
         }
         "se256" => {
             let (s0, s1) = (variant.as_bytes()[3] == b'1', variant.as_bytes()[4] == b'1');
-            let s = built(r, RankSelectSE256::with_options(make_bv(inp, route), s0, s1))?;
-            ops_basic(r, &s)
+            let s = built(r, RankSelectSE256::with_options(mkbv(route), s0, s1))?;
+            ops_basic(r, &s)?;
+            r.cnt("ones", "max_rank1", || s.max_rank1())?;
+            r.cnt("zeros", "max_rank0", || s.max_rank0())
         }
         "se512" => {
             let s = match variant {
-                "alias32" => RankSelectSE512_32::new(make_bv(inp, route)),
-                "alias64" => RankSelectSE512_64::new(make_bv(inp, route)),
+                "alias32" => RankSelectSE512_32::new(mkbv(route)),
+                "alias64" => RankSelectSE512_64::new(mkbv(route)),
                 _ => {
                     let (s0, s1) = (variant.as_bytes()[3] == b'1', variant.as_bytes()[4] == b'1');
-                    RankSelectSE512::with_options(make_bv(inp, route), s0, s1)
+                    RankSelectSE512::with_options(mkbv(route), s0, s1)
                 }
             };
             let s = built(r, s)?;
-            ops_basic(r, &s)
+            ops_basic(r, &s)?;
+            r.cnt("ones", "max_rank1", || s.max_rank1())?;
+            r.cnt("zeros", "max_rank0", || s.max_rank0())
         }
         "simple" => {
             let s = match variant {
                 "from_words" => RankSelectSimple::from_words(inp.words.clone(), n),
-                _ => RankSelectSimple::new(make_bv(inp, route)),
+                _ => RankSelectSimple::new(mkbv(route)),
             };
             let s = built(r, s)?;
-            ops_basic(r, &s)
+            ops_basic(r, &s)?;
+            r.cnt("ones", "max_rank1", || s.max_rank1())?;
+            r.cnt("zeros", "max_rank0", || s.max_rank0())
         }
         "fewone" | "fewzero" => {
             let pivot = fam == "fewone";
             // the sparse constructors take the sorted positions of the pivot bits (input formatting)
-            let pos: Vec<u32> = (0..n).filter(|&i| inp.bit(i) == pivot).map(|i| i as u32).collect();
+            let pos: Vec<u32> =
+                if variant == "new" { (0..n).filter(|&i| inp.bit(i) == pivot).map(|i| i as u32).collect() } else { vec![] };
             if pos.len() > 3000 && variant == "new" {
                 return Ok(()); // the position list is an input here; keep it small
             }
             if pivot {
                 let s = match variant {
                     "new" => RankSelectFewOne::new(pos, n),
-                    _ => RankSelectFewOne::from_bitvector(&make_bv(inp, route)),
+                    _ => RankSelectFewOne::from_bitvector(&mkbv(route)),
                 };
                 let s = built(r, s)?;
-                ops_basic(r, &s)
+                ops_basic(r, &s)?;
+                r.cnt("ones", "num_ones", || s.num_ones())?;
+                r.cnt("zeros", "num_zeros", || s.num_zeros())
             } else {
                 let s = match variant {
                     "new" => RankSelectFewZero::new(pos, n),
-                    _ => RankSelectFewZero::from_bitvector(&make_bv(inp, route)),
+                    _ => RankSelectFewZero::from_bitvector(&mkbv(route)),
                 };
                 let s = built(r, s)?;
-                ops_basic(r, &s)
+                ops_basic(r, &s)?;
+                r.cnt("ones", "num_ones", || s.num_ones())?;
+                r.cnt("zeros", "num_zeros", || s.num_zeros())
             }
         }
         "mixed" => {
@@ -742,31 +1220,47 @@ fn run_subject(r: &mut Run, fam: &str, variant: &str, route: &str, seed: u64) ->
             };
             let w = partner(inp, seed, plen);
             if variant.starts_with("dim0") {
-                let s = built(r, RankSelectMixedIL256::new(make_bv(inp, route), w))?;
+                let s = built(r, RankSelectMixedIL256::new(mkbv(route), w))?;
                 ops_basic(r, &s.dim0())?;
+                r.cnt("len", "size_dim", || s.size_dim(0))?;
+                r.cnt("ones", "max_rank1_dim", || s.max_rank1_dim(0))?;
                 if !(r.full && variant == "dim0_long") {
                     return Ok(());
                 }
+                r.get("get_dim", |i| s.get_dim(0, i))?;
                 r.rank("rank1", "rank1_dim", |p| s.rank1_dim(0, p))?;
                 r.select("select1", "select1_dim", |k| s.select1_dim(0, k).ok())
             } else {
-                let s = built(r, RankSelectMixedIL256::new(w, make_bv(inp, route)))?;
+                let s = built(r, RankSelectMixedIL256::new(w, mkbv(route)))?;
                 ops_basic(r, &s.dim1())?;
+                r.cnt("len", "size_dim", || s.size_dim(1))?;
+                r.cnt("ones", "max_rank1_dim", || s.max_rank1_dim(1))?;
                 if !(r.full && variant == "dim1_long") {
                     return Ok(());
                 }
+                r.get("get_dim", |i| s.get_dim(1, i))?;
                 r.rank("rank0", "rank0_dim", |p| s.rank0_dim(1, p))?;
                 r.select("select1", "select1_dim", |k| s.select1_dim(1, k).ok())
             }
         }
-        "allzero" => ops_basic(r, &RankSelectAllZero::new(n)),
-        "allone" => ops_basic(r, &RankSelectAllOne::new(n)),
+        "allzero" => {
+            let s = RankSelectAllZero::new(n);
+            ops_basic(r, &s)?;
+            r.cnt("ones", "max_rank1", || s.max_rank1())?;
+            r.cnt("zeros", "max_rank0", || s.max_rank0())
+        }
+        "allone" => {
+            let s = RankSelectAllOne::new(n);
+            ops_basic(r, &s)?;
+            r.cnt("ones", "max_rank1", || s.max_rank1())?;
+            r.cnt("zeros", "max_rank0", || s.max_rank0())
+        }
         "adaptive" => {
             let s = match variant {
-                "default" => AdaptiveRankSelect::new(make_bv(inp, route)),
+                "default" => AdaptiveRankSelect::new(mkbv(route)),
                 "nosel_space" => {
                     let c = SelectionCriteria { enable_select_cache: false, prefer_space: true, ..SelectionCriteria::default() };
-                    AdaptiveRankSelect::with_criteria(make_bv(inp, route), c)
+                    AdaptiveRankSelect::with_criteria(mkbv(route), c)
                 }
                 _ => {
                     let c = SelectionCriteria {
@@ -775,7 +1269,7 @@ fn run_subject(r: &mut Run, fam: &str, variant: &str, route: &str, seed: u64) ->
                         small_dataset_threshold: 100,
                         ..SelectionCriteria::default()
                     };
-                    AdaptiveRankSelect::with_criteria(make_bv(inp, route), c)
+                    AdaptiveRankSelect::with_criteria(mkbv(route), c)
                 }
             };
             let s = built(r, s)?;
@@ -783,26 +1277,27 @@ fn run_subject(r: &mut Run, fam: &str, variant: &str, route: &str, seed: u64) ->
         }
         "adaptive_md" => {
             let w = partner(inp, seed, n);
-            let s = built(r, AdaptiveMultiDimensional::new_dual(make_bv(inp, route), w))?;
+            let s = built(r, AdaptiveMultiDimensional::new_dual(mkbv(route), w))?;
             ops_basic(r, &s)
         }
         "multidim" => {
             // only the bulk entry points exist; the other dimensions hold partner vectors
             match variant {
                 "d0of2" => {
-                    let s: MultiDimRankSelect<2> = built(r, MultiDimRankSelect::new(vec![make_bv(inp, route), partner(inp, seed, n)]))?;
+                    let s: MultiDimRankSelect<2> = built(r, MultiDimRankSelect::new(vec![mkbv(route), partner(inp, seed, n)]))?;
+                    r.cnt("len", "total_bits", || s.total_bits())?;
                     r.rank("rank1", "bulk_rank_multidim", |p| s.bulk_rank_multidim(&[p, n - p])[0])?;
                     r.select("select1", "bulk_select_multidim", |k| s.bulk_select_multidim(&[k, 0]).ok().map(|x| x[0]))
                 }
                 "d1of2" => {
-                    let s: MultiDimRankSelect<2> = built(r, MultiDimRankSelect::new(vec![partner(inp, seed, n), make_bv(inp, route)]))?;
+                    let s: MultiDimRankSelect<2> = built(r, MultiDimRankSelect::new(vec![partner(inp, seed, n), mkbv(route)]))?;
                     r.rank("rank1", "bulk_rank_multidim", |p| s.bulk_rank_multidim(&[n - p, p])[1])?;
                     // dimension 0 is asked for its first one; when it has none the whole call is refused
                     r.select("select1", "bulk_select_multidim", |k| s.bulk_select_multidim(&[0, k]).ok().map(|x| x[1]))
                 }
                 _ => {
-                    let mut v: Vec<BitVector> = (0..4).map(|_| make_bv(inp, "push")).collect();
-                    v.push(make_bv(inp, route));
+                    let mut v: Vec<BitVector> = (0..4).map(|_| mkbv(if route == "hist" { "hist" } else { "push" })).collect();
+                    v.push(mkbv(route));
                     let s: MultiDimRankSelect<5> = built(r, MultiDimRankSelect::new(v))?;
                     r.rank("rank1", "bulk_rank_multidim", |p| s.bulk_rank_multidim(&[0, n, p / 2, n - p, p])[4])?;
                     r.select("select1", "bulk_select_multidim", |k| s.bulk_select_multidim(&[k, k, k, k, k]).ok().map(|x| x[4]))
@@ -846,6 +1341,14 @@ fn run_subject(r: &mut Run, fam: &str, variant: &str, route: &str, seed: u64) ->
             r.wrank("Bmi2BzhiOps::popcount_bzhi_enhanced", |x, p| b2a::Bmi2BzhiOps::popcount_bzhi_enhanced(x, p as u32) as usize)?;
             r.wrank("Bmi2RangeOps::count_ones_range", |x, p| b2a::Bmi2RangeOps::count_ones_range(x, 0, p as u32) as usize)?;
             r.wrank("Bmi2Accelerator::rank1", |x, p| acc.rank1(x, p as u32) as usize)?;
+            r.wrange("Bmi2RangeOps::count_ones_multi_range", |x, rs| b2a::Bmi2RangeOps::count_ones_multi_range(x, rs))?;
+            r.wrange("Bmi2RangeOps::count_ones_range", |x, rs| rs.iter().map(|&(s, l)| b2a::Bmi2RangeOps::count_ones_range(x, s, l)).collect())?;
+            r.wedge("Bmi2RankOps::trailing_zeros/leading_zeros", |x| (b2a::Bmi2RankOps::trailing_zeros(x), b2a::Bmi2RankOps::leading_zeros(x)))?;
+            r.popcounts("Bmi2BlockOps::process_blocks_simd.0", |ws| b2a::Bmi2BlockOps::process_blocks_simd(ws).into_iter().map(|x| x.0 as usize).collect())?;
+            r.wedge("Bmi2BlockOps::process_blocks_simd.1", |x| {
+                let v = b2a::Bmi2BlockOps::process_blocks_simd(&[x, x, x, x, x]);
+                (b2a::Bmi2RankOps::trailing_zeros(x), v[4].1)
+            })?;
             r.wselect("select1", "Bmi2SelectOps::select1_u64", |x, k| b2a::Bmi2SelectOps::select1_u64(x, k as u32).map(|p| p as usize))?;
             r.wselect("select1", "Bmi2SelectOps::select1_u64_enhanced", |x, k| {
                 b2a::Bmi2SelectOps::select1_u64_enhanced(x, k as u32).map(|p| p as usize)
@@ -864,6 +1367,9 @@ fn run_subject(r: &mut Run, fam: &str, variant: &str, route: &str, seed: u64) ->
         "bmi2c" => {
             let w = &inp.words;
             r.wrank("Bmi2BitOps::rank1_optimized", |x, p| b2c::Bmi2BitOps::rank1_optimized(x, p))?;
+            r.wedge("Bmi2BitOps::trailing_zeros_optimized/leading_zeros_optimized", |x| {
+                (b2c::Bmi2BitOps::trailing_zeros_optimized(x), b2c::Bmi2BitOps::leading_zeros_optimized(x))
+            })?;
             // these select the rank-th one, rank counted from 1 (documented by the crate's tests)
             r.wselect("select1", "Bmi2BitOps::select1_ultra_fast(1-based)", |x, k| b2c::Bmi2BitOps::select1_ultra_fast(x, k + 1))?;
             r.wselect("select1", "Bmi2BitOps::select1_fallback(1-based)", |x, k| b2c::Bmi2BitOps::select1_fallback(x, k + 1))?;
@@ -883,6 +1389,7 @@ fn drive(a: &Args) {
     let mut stats: BTreeMap<String, SubjStat> = BTreeMap::new();
     let mut ints_in_file = 0u64;
     let mut answers = 0u64;
+    let mut hist_runs = 0u64;
     // subject-major: a trace file holds few subjects, so one defective subject does not hide the others
     for name in subjects() {
         if !a.wants(&name) {
@@ -893,6 +1400,55 @@ fn drive(a: &Args) {
         // a new file per subject, unless the current file is still small (JVM start-up costs ~3 CPU seconds)
         if ints_in_file >= 200_000 {
             tr.max_events = 0;
+        }
+        if route == "hist" {
+            // one run per (subject, history): the mutator calls are logged first, then the structure is built
+            // from the resulting BitVector and asked everything
+            let only_pat = a.get("pat");
+            if a.get("len").is_some() && only_pat.map_or(true, |p| !p.starts_with("hist:")) {
+                continue;
+            }
+            for (profile, v) in histories(a) {
+                let pat = format!("hist:{profile}:{v}");
+                if let Some(p) = only_pat {
+                    if p != pat {
+                        continue;
+                    }
+                }
+                if ints_in_file >= budget {
+                    tr.max_events = 0;
+                }
+                let before = tr.files.len();
+                tr.reset(
+                    "rankselect",
+                    &name,
+                    json!({"fam": fam, "variant": variant, "route": route, "len": 0, "pat": pat, "big": false,
+                           "seed": a.seed, "w16": []}),
+                );
+                if tr.files.len() != before {
+                    ints_in_file = 0;
+                }
+                tr.max_events = usize::MAX;
+                st.runs += 1;
+                st.events += 1;
+                ints_in_file += 16;
+                let dummy = Input { len: 0, words: vec![], pat, big: false };
+                let mut r = Run {
+                    tr: &mut tr, inp: &dummy, st, ints: &mut ints_in_file, at: Cell::new(0), answered: false,
+                    full: a.thorough(), n: 0, hist: None,
+                };
+                if let Ok(bv) = history(&mut r, &profile, v, a.seed, fam == "bv") {
+                    r.n = bv.len();
+                    r.hist = Some(bv);
+                    let _ = run_subject(&mut r, &fam, &variant, &route, a.seed);
+                }
+                if r.answered {
+                    st.nontrivial_runs += 1;
+                }
+                hist_runs += 1;
+            }
+            answers += st.answers;
+            continue;
         }
         for (vi, inp) in ins.iter().enumerate() {
             if !applicable(&fam, inp) {
@@ -924,7 +1480,7 @@ fn drive(a: &Args) {
             st.runs += 1;
             st.events += 1;
             ints_in_file += (inp.len as u64) / 16 + 16;
-            let mut r = Run { tr: &mut tr, inp, st, ints: &mut ints_in_file, at: Cell::new(0), answered: false, full: a.thorough() };
+            let mut r = Run { tr: &mut tr, inp, st, ints: &mut ints_in_file, at: Cell::new(0), answered: false, full: a.thorough(), n: inp.len, hist: None };
             let _ = run_subject(&mut r, &fam, &variant, &route, a.seed);
             if r.answered {
                 st.nontrivial_runs += 1;
@@ -952,13 +1508,15 @@ fn drive(a: &Args) {
     write_summary(
         &a.out,
         &json!({"mode":"drive","events":tr.total_events,"runs":tr.runs,"answers":answers,"vectors":ins.len(),
-                "lengths":lens.len(),"max_len":lens.iter().max(),"files":tr.files.len(),"subjects":subj}),
+                "lengths":lens.len(),"max_len":lens.iter().max(),"history_runs":hist_runs,"histories":histories(a).len(),"files":tr.files.len(),"subjects":subj}),
     );
 }
 
 fn main() {
     let a = Args::parse();
-    quiet_panics();
+    if std::env::var("C04_LOUD").is_err() {
+        quiet_panics();
+    }
     match a.mode.as_str() {
         "drive" => drive(&a),
         "subjects" => {
